@@ -12,18 +12,18 @@ log=""
 run() { log="$log\n$ $*"; }
 # demo on clean tree must pass
 cp $SD/demo_test.go $WT/$place/zz_seed_demo_test.go
-(cd $WT/$place && timeout 600 go test -vet=off -count=1 -run 'Seed|Demo' . >/tmp/seed_clean.log 2>&1); clean_rc=$?
+(cd $WT/$place && timeout 600 go test -vet=off -count=1 -run 'Seed|Demo' . >/tmp/seed_clean_$ID.log 2>&1); clean_rc=$?
 rm -f $WT/$place/zz_seed_demo_test.go
 # apply
 git -C $WT apply $SD/patch.diff || { echo "patch does not apply"; exit 2; }
-(cd $WT && timeout 900 go build ./... >/tmp/seed_build.log 2>&1); build_rc=$?
-(cd $WT && timeout 900 go test -vet=off -count=1 ./... >/tmp/seed_suite.log 2>&1); suite_rc=$?
+(cd $WT && timeout 900 go build ./... >/tmp/seed_build_$ID.log 2>&1); build_rc=$?
+(cd $WT && timeout 900 go test -vet=off -count=1 ./... >/tmp/seed_suite_$ID.log 2>&1); suite_rc=$?
 cp $SD/demo_test.go $WT/$place/zz_seed_demo_test.go
-(cd $WT/$place && timeout 600 go test -vet=off -count=1 -run 'Seed|Demo' . >/tmp/seed_patched.log 2>&1); patched_rc=$?
+(cd $WT/$place && timeout 600 go test -vet=off -count=1 -run 'Seed|Demo' . >/tmp/seed_patched_$ID.log 2>&1); patched_rc=$?
 rm -f $WT/$place/zz_seed_demo_test.go
 git -C $WT checkout -q -- . ; git -C $WT clean -fdq; find $WT -name "verif_*.go" -delete
 echo "seed $ID-$K: demo_on_clean=$clean_rc build=$build_rc suite=$suite_rc demo_on_patched=$patched_rc (want 0 0 0 nonzero)"
-if [ $clean_rc -ne 0 ] || [ $build_rc -ne 0 ] || [ $suite_rc -ne 0 ] || [ $patched_rc -eq 0 ]; then echo "NOT CONFIRMED"; tail -5 /tmp/seed_clean.log /tmp/seed_suite.log /tmp/seed_patched.log; exit 1; fi
+if [ $clean_rc -ne 0 ] || [ $build_rc -ne 0 ] || [ $suite_rc -ne 0 ] || [ $patched_rc -eq 0 ]; then echo "NOT CONFIRMED"; tail -5 /tmp/seed_clean_$ID.log /tmp/seed_suite_$ID.log /tmp/seed_patched_$ID.log; exit 1; fi
 mkdir -p $OUT; cp $SD/patch.diff $OUT/patch.diff; cp $SD/demo_test.go $OUT/demo_test.go
 # run our check against /repo's committed state with the patch applied.  By default this uses a scratch copy
 # (VERIF_REPO), so that work in progress in /repo is not disturbed; with INPLACE=1 the patch is applied to /repo
@@ -31,7 +31,7 @@ mkdir -p $OUT; cp $SD/patch.diff $OUT/patch.diff; cp $SD/demo_test.go $OUT/demo_
 if [ "${INPLACE:-0}" = 1 ]; then
   if [ -n "$(git -C /repo status --porcelain)" ]; then echo "/repo has uncommitted changes: commit them first"; exit 2; fi
   git -C /repo apply $SD/patch.diff || { echo "patch does not apply to /repo"; exit 2; }
-  res=$(cd /verif && VERIF_EVIDENCE_DIR=/tmp/seed_ev timeout 1500 ./check $ID quick 2>&1); check_rc=$?
+  res=$(cd /verif && VERIF_EVIDENCE_DIR=/tmp/seed_ev_$ID timeout 1500 ./check $ID quick 2>&1); check_rc=$?
   git -C /repo checkout -q -- .
 else
   SC=$(mktemp -d /tmp/seedrepo-XXXXXX); git -C /repo archive HEAD | tar -x -C $SC
